@@ -1,0 +1,402 @@
+//go:build verif
+
+// Contracts for package ocimem, checked by /verif/govc. Comments only.
+
+package ocimem
+
+// ---------------------------------------------------------------------------
+// The in-memory registry: representation invariants (C01, C02), lock
+// discipline (C08), immutable-tags mode (C14), upload buffers (C04).
+//
+// dg is digest.FromBytes as an unspecified deterministic function of the
+// bytes. Everything the registry stores under a digest hashes to it
+// (DigestInv); every repository has its four maps (RepoWF); stored blob
+// objects are never modified after construction.
+
+//@ immutable blob.mediaType, blob.data, blob.subject
+//@ immutable Buffer.commit, Buffer.uuid
+//@ immutable Registry.cfg
+
+//@ guarded_by Registry.mu: Registry.repos, repository.tags, repository.manifests, repository.blobs, repository.uploads
+//@ guarded_by Buffer.mu: Buffer.buf, Buffer.checkStartOffset, Buffer.committed, Buffer.desc, Buffer.commitErr
+
+//@ pure func repoWF(p *repository) bool =
+//@   p != nil && p.tags != nil && p.manifests != nil && p.blobs != nil && p.uploads != nil
+
+//@ pure func hasBlob(r *Registry, n string, d ociregistry.Digest) bool = in(r.repos, n) && in(r.repos[n].blobs, d)
+//@ pure func hasManifest(r *Registry, n string, d ociregistry.Digest) bool = in(r.repos, n) && in(r.repos[n].manifests, d)
+//@ pure func hasTag(r *Registry, n string, t string) bool = in(r.repos, n) && in(r.repos[n].tags, t)
+
+//@ invariant (*Registry) self != nil
+//@ invariant (*Registry) forall n string :: in(self.repos, n) ==> repoWF(self.repos[n])
+//@ invariant (*Registry) forall n string, d ociregistry.Digest :: in(self.repos, n) && in(self.repos[n].blobs, d) ==>
+//@     self.repos[n].blobs[d] != nil && digest.FromBytes(self.repos[n].blobs[d].data) == d
+//@ invariant (*Registry) forall n string, d ociregistry.Digest :: in(self.repos, n) && in(self.repos[n].manifests, d) ==>
+//@     self.repos[n].manifests[d] != nil && digest.FromBytes(self.repos[n].manifests[d].data) == d
+//@ invariant (*Registry) forall n string, id string :: in(self.repos, n) && in(self.repos[n].uploads, id) ==>
+//@     self.repos[n].uploads[id] != nil && self.repos[n].uploads[id].commit != nil
+
+// Repositories own their maps: no two repositories share one, and a
+// repository's manifest map is not a blob map (same Go type).
+//@ invariant (*Registry) forall n1, n2 string :: in(self.repos, n1) && in(self.repos, n2) && n1 != n2 ==>
+//@     self.repos[n1] != self.repos[n2] && self.repos[n1].tags != self.repos[n2].tags &&
+//@     self.repos[n1].manifests != self.repos[n2].manifests && self.repos[n1].blobs != self.repos[n2].blobs
+//@ invariant (*Registry) forall n1, n2 string :: in(self.repos, n1) && in(self.repos, n2) ==>
+//@     self.repos[n1].manifests != self.repos[n2].blobs
+
+//@ invariant (*blob) self != nil
+//@ invariant (*bytesReader) self != nil
+//@ invariant (*Buffer) self != nil && self.commit != nil
+
+//@ func New
+//@   ensures result != nil
+//@ func NewWithConfig
+//@   ensures result != nil
+
+// CheckDescriptor: a descriptor that passes the check against some bytes
+// names exactly those bytes.
+//@ func CheckDescriptor
+//@   pure
+//@   ensures[digest-and-size-match] result == nil && data != nil ==>
+//@             digest.FromBytes(data) == desc.Digest && desc.Size == len(data)
+//@   ensures[sane] result == nil ==> desc.MediaType != "" && desc.Digest.Validate() == nil
+
+// (a function of the blob alone: its fields are immutable)
+//@ func (*blob).descriptor
+//@   pure
+//@   ensures[describes-its-bytes] result.MediaType == b.mediaType && result.Size == len(b.data) &&
+//@             result.Digest == digest.FromBytes(b.data)
+
+// Readers over stored bytes: what will be read and what is described.
+//@ pure func readerBytes(r ociregistry.BlobReader) string
+//@ pure func readerDesc(r ociregistry.BlobReader) ociregistry.Descriptor
+// (trusted: bytes.Reader yields exactly the bytes it was reset with)
+//@ func NewBytesReader
+//@   trusted
+//@   modifies nothing
+//@   ensures[reads-exactly-the-bytes] result != nil && readerBytes(result) == string(data) && readerDesc(result) == desc
+
+// Helpers that run under the registry lock.
+//@ func (*Registry).repo
+//@   holds r.mu
+//@   modifies nothing
+//@   ensures[found] in(r.repos, repoName) ==> result.0 == r.repos[repoName] && result.1 == nil
+//@   ensures[unknown-name] !in(r.repos, repoName) ==> result.0 == nil && result.1 == ociregistry.ErrNameUnknown
+
+//@ func (*Registry).blobForDigest
+//@   holds r.mu
+//@   modifies nothing
+//@   ensures[found] result.1 == nil ==> in(r.repos, repoName) && in(r.repos[repoName].blobs, dig) && result.0 == r.repos[repoName].blobs[dig] && result.0 != nil
+//@   ensures[unknown-name] !in(r.repos, repoName) ==> result.1 == ociregistry.ErrNameUnknown && result.0 == nil
+//@   ensures[unknown-blob] in(r.repos, repoName) && !in(r.repos[repoName].blobs, dig) ==> result.1 == ociregistry.ErrBlobUnknown && result.0 == nil
+
+//@ func (*Registry).manifestForDigest
+//@   holds r.mu
+//@   modifies nothing
+//@   ensures[found] result.1 == nil ==> in(r.repos, repoName) && in(r.repos[repoName].manifests, dig) && result.0 == r.repos[repoName].manifests[dig] && result.0 != nil
+//@   ensures[unknown-name] !in(r.repos, repoName) ==> result.1 == ociregistry.ErrNameUnknown && result.0 == nil
+//@   ensures[unknown-manifest] in(r.repos, repoName) && !in(r.repos[repoName].manifests, dig) ==> result.1 == ociregistry.ErrManifestUnknown && result.0 == nil
+
+//@ func (*Registry).makeRepo
+//@   holds r.mu
+//@   ensures[invalid-name] !ociref.IsValidRepository(repoName) ==> result.1 == ociregistry.ErrNameInvalid && result.0 == nil
+//@   ensures[invalid-name-changes-nothing] !ociref.IsValidRepository(repoName) ==>
+//@     forall n string, d ociregistry.Digest :: in(r.repos, n) && in(r.repos[n].blobs, d) ==> old(in(r.repos, n) && in(r.repos[n].blobs, d))
+//@   ensures[repo-exists-afterwards] ociref.IsValidRepository(repoName) ==> result.1 == nil && in(r.repos, repoName) && result.0 == r.repos[repoName]
+//@   ensures[keeps-every-blob] forall n string, d ociregistry.Digest :: hasBlob(r, n, d) == old(hasBlob(r, n, d)) &&
+//@     (hasBlob(r, n, d) ==> r.repos[n].blobs[d] == old(r.repos[n].blobs[d]))
+//@   ensures[keeps-every-manifest] forall n string, d ociregistry.Digest :: hasManifest(r, n, d) == old(hasManifest(r, n, d)) &&
+//@     (hasManifest(r, n, d) ==> r.repos[n].manifests[d] == old(r.repos[n].manifests[d]))
+//@   ensures[keeps-every-tag] forall n string, t string :: hasTag(r, n, t) == old(hasTag(r, n, t)) &&
+//@     (hasTag(r, n, t) ==> r.repos[n].tags[t] == old(r.repos[n].tags[t]))
+
+// Reads.
+//@ func (*Registry).GetBlob
+//@   atomic
+//@   modifies nothing
+//@   ensures[serves-the-stored-bytes] result.1 == nil ==> in(r.repos, repoName) && in(r.repos[repoName].blobs, dig) &&
+//@     readerBytes(result.0) == string(r.repos[repoName].blobs[dig].data) &&
+//@     readerDesc(result.0).Digest == dig && readerDesc(result.0).Size == len(r.repos[repoName].blobs[dig].data)
+//@   ensures[unknown-name] !in(old(r.repos), repoName) ==> result.1 == ociregistry.ErrNameUnknown
+//@   ensures[unknown-blob] in(old(r.repos), repoName) && !in(old(r.repos[repoName].blobs), dig) ==> result.1 == ociregistry.ErrBlobUnknown
+
+//@ func (*Registry).GetManifest
+//@   atomic
+//@   modifies nothing
+//@   ensures[serves-the-stored-bytes] result.1 == nil ==> in(r.repos, repoName) && in(r.repos[repoName].manifests, dig) &&
+//@     readerBytes(result.0) == string(r.repos[repoName].manifests[dig].data) &&
+//@     readerDesc(result.0).Digest == dig && readerDesc(result.0).Size == len(r.repos[repoName].manifests[dig].data)
+//@   ensures[unknown-name] !in(old(r.repos), repoName) ==> result.1 == ociregistry.ErrNameUnknown
+//@   ensures[unknown-manifest] in(old(r.repos), repoName) && !in(old(r.repos[repoName].manifests), dig) ==> result.1 == ociregistry.ErrManifestUnknown
+
+//@ pure func rangeEnd(o1 int64, size int64) int64 = (o1 < 0 || o1 > size) ? size : o1
+//@ func (*Registry).GetBlobRange
+//@   atomic
+//@   modifies nothing
+//@   ensures[serves-the-slice-describes-the-whole] result.1 == nil ==> in(r.repos, repoName) && in(r.repos[repoName].blobs, dig) &&
+//@     0 <= o0 && o0 <= rangeEnd(o1, len(r.repos[repoName].blobs[dig].data)) &&
+//@     readerBytes(result.0) == string(r.repos[repoName].blobs[dig].data)[o0:rangeEnd(o1, len(r.repos[repoName].blobs[dig].data))] &&
+//@     readerDesc(result.0).Digest == dig && readerDesc(result.0).Size == len(r.repos[repoName].blobs[dig].data)
+
+//@ func (*Registry).ResolveBlob
+//@   atomic
+//@   modifies nothing
+//@   ensures[describes-the-stored-bytes] result.1 == nil ==> in(r.repos, repoName) && in(r.repos[repoName].blobs, digest) &&
+//@     result.0.Digest == digest && result.0.Size == len(r.repos[repoName].blobs[digest].data)
+//@ func (*Registry).ResolveManifest
+//@   atomic
+//@   modifies nothing
+//@   ensures[describes-the-stored-bytes] result.1 == nil ==> in(r.repos, repoName) && in(r.repos[repoName].manifests, digest) &&
+//@     result.0.Digest == digest && result.0.Size == len(r.repos[repoName].manifests[digest].data)
+//@ func (*Registry).ResolveTag
+//@   atomic
+//@   modifies nothing
+//@   ensures[bound-tag] result.1 == nil ==> in(r.repos, repoName) && in(r.repos[repoName].tags, tagName) && result.0 == r.repos[repoName].tags[tagName]
+//@   ensures[unknown-name] !in(old(r.repos), repoName) ==> result.1 == ociregistry.ErrNameUnknown
+//@   ensures[unknown-tag] in(old(r.repos), repoName) && !in(old(r.repos[repoName].tags), tagName) ==> result.1 == ociregistry.ErrManifestUnknown
+//@ func (*Registry).GetTag
+//@   atomic
+
+// Writes.
+//@ func (*Registry).PushBlob
+//@   atomic
+//@   ensures[accepted-only-if-matching] result.1 == nil ==> in(r.repos, repoName) && in(r.repos[repoName].blobs, desc.Digest) &&
+//@     result.0 == desc && desc.Size == len(r.repos[repoName].blobs[desc.Digest].data)
+//@   ensures[rejected-stores-nothing] result.1 != nil ==>
+//@     forall n string, d ociregistry.Digest :: in(r.repos, n) && in(r.repos[n].blobs, d) ==> old(in(r.repos, n) && in(r.repos[n].blobs, d))
+
+//@ func (*Registry).MountBlob
+//@   atomic
+//@   ensures[mounted-from-the-source] result.1 == nil ==> old(hasBlob(r, fromRepo, dig)) && hasBlob(r, toRepo, dig) &&
+//@     r.repos[toRepo].blobs[dig] == old(r.repos[fromRepo].blobs[dig]) && result.0.Digest == dig
+//@   ensures[touches-only-that-blob] forall n string, d ociregistry.Digest :: !(n == toRepo && d == dig) ==>
+//@     hasBlob(r, n, d) == old(hasBlob(r, n, d)) && (hasBlob(r, n, d) ==> r.repos[n].blobs[d] == old(r.repos[n].blobs[d]))
+//@   ensures[manifests-and-tags-untouched] forall n string, d ociregistry.Digest, t string ::
+//@     hasManifest(r, n, d) == old(hasManifest(r, n, d)) && hasTag(r, n, t) == old(hasTag(r, n, t)) &&
+//@     (hasTag(r, n, t) ==> r.repos[n].tags[t] == old(r.repos[n].tags[t]))
+
+// PushManifest. "already tagged" is the immutable-tags shortcut: the tag is
+// bound, and the call either confirms the binding or is denied.
+//@ pure func alreadyTagged(r *Registry, n string, t string) bool = r.cfg.ImmutableTags && t != "" && hasTag(r, n, t)
+//@ func (*Registry).PushManifest
+//@   atomic
+//@   ensures[describes-the-bytes] result.1 == nil ==> result.0.Digest == digest.FromBytes(data) && result.0.MediaType == mediaType
+//@   ensures[stored-under-its-digest] result.1 == nil && !old(alreadyTagged(r, repoName, tag)) ==> result.0.Size == len(data) &&
+//@     hasManifest(r, repoName, digest.FromBytes(data)) &&
+//@     string(r.repos[repoName].manifests[digest.FromBytes(data)].data) == string(data) &&
+//@     r.repos[repoName].manifests[digest.FromBytes(data)].mediaType == mediaType
+//@   ensures[tag-bound-to-it] result.1 == nil && tag != "" ==> hasTag(r, repoName, tag) &&
+//@     r.repos[repoName].tags[tag].Digest == digest.FromBytes(data) && r.repos[repoName].tags[tag].MediaType == mediaType
+//@   ensures[references-checked-before-storing] result.1 == nil && !old(alreadyTagged(r, repoName, tag)) ==>
+//@     calls == [r.checkManifest(repoName, mediaType, _)] && calls[0].result.1 == nil
+//@   ensures[immutable-tags-never-move] old(r.cfg.ImmutableTags) ==> forall n string, t string :: old(hasTag(r, n, t)) ==>
+//@     hasTag(r, n, t) && r.repos[n].tags[t] == old(r.repos[n].tags[t])
+//@   ensures[other-tags-untouched] forall n string, t string :: !(n == repoName && t == tag) ==>
+//@     hasTag(r, n, t) == old(hasTag(r, n, t)) && (hasTag(r, n, t) ==> r.repos[n].tags[t] == old(r.repos[n].tags[t]))
+//@   ensures[nothing-removed] forall n string, d ociregistry.Digest :: (old(hasManifest(r, n, d)) ==> hasManifest(r, n, d)) &&
+//@     hasBlob(r, n, d) == old(hasBlob(r, n, d))
+//@   ensures[other-manifests-untouched] forall n string, d ociregistry.Digest :: !(n == repoName && d == digest.FromBytes(data)) ==>
+//@     hasManifest(r, n, d) == old(hasManifest(r, n, d)) && (hasManifest(r, n, d) ==> r.repos[n].manifests[d] == old(r.repos[n].manifests[d]))
+//@   ensures[rejected-stores-nothing] result.1 != nil ==> forall n string, d ociregistry.Digest, t string ::
+//@     hasManifest(r, n, d) == old(hasManifest(r, n, d)) && hasTag(r, n, t) == old(hasTag(r, n, t)) &&
+//@     (hasTag(r, n, t) ==> r.repos[n].tags[t] == old(r.repos[n].tags[t]))
+
+//@ func (*Registry).PushBlobChunked
+//@ func (*Registry).PushBlobChunkedResume
+//@   atomic
+
+// Deletions. In immutable-tags mode content is only deleted after refersTo
+// found it unreachable from every tag.
+//@ func (*Registry).DeleteBlob
+//@   atomic
+//@   ensures[deleted] result == nil ==> old(hasBlob(r, repoName, digest)) && !hasBlob(r, repoName, digest)
+//@   ensures[unknown-name] !old(in(r.repos, repoName)) ==> result == ociregistry.ErrNameUnknown
+//@   ensures[unknown-blob] old(in(r.repos, repoName)) && !old(hasBlob(r, repoName, digest)) ==> result == ociregistry.ErrBlobUnknown
+//@   ensures[touches-only-that-blob] forall n string, d ociregistry.Digest :: !(n == repoName && d == digest) ==>
+//@     hasBlob(r, n, d) == old(hasBlob(r, n, d)) && (hasBlob(r, n, d) ==> r.repos[n].blobs[d] == old(r.repos[n].blobs[d]))
+//@   ensures[failed-deletes-nothing] result != nil ==> forall n string, d ociregistry.Digest :: hasBlob(r, n, d) == old(hasBlob(r, n, d))
+//@   ensures[manifests-and-tags-untouched] forall n string, d ociregistry.Digest, t string ::
+//@     hasManifest(r, n, d) == old(hasManifest(r, n, d)) && hasTag(r, n, t) == old(hasTag(r, n, t)) &&
+//@     (hasTag(r, n, t) ==> r.repos[n].tags[t] == old(r.repos[n].tags[t]))
+//@   ensures[tagged-content-protected] old(r.cfg.ImmutableTags) && result == nil ==>
+//@     calls == [refersTo(old(r.repos[repoName]), repoTagIter(old(r.repos[repoName])), digest)] && !calls[0].result.0 && calls[0].result.1 == nil
+
+//@ func (*Registry).DeleteManifest
+//@   atomic
+//@   ensures[deleted] result == nil ==> old(hasManifest(r, repoName, digest)) && !hasManifest(r, repoName, digest)
+//@   ensures[unknown-name] !old(in(r.repos, repoName)) ==> result == ociregistry.ErrNameUnknown
+//@   ensures[unknown-manifest] old(in(r.repos, repoName)) && !old(hasManifest(r, repoName, digest)) ==> result == ociregistry.ErrManifestUnknown
+//@   ensures[touches-only-that-manifest] forall n string, d ociregistry.Digest :: !(n == repoName && d == digest) ==>
+//@     hasManifest(r, n, d) == old(hasManifest(r, n, d)) && (hasManifest(r, n, d) ==> r.repos[n].manifests[d] == old(r.repos[n].manifests[d]))
+//@   ensures[failed-deletes-nothing] result != nil ==> forall n string, d ociregistry.Digest :: hasManifest(r, n, d) == old(hasManifest(r, n, d))
+//@   ensures[blobs-and-tags-untouched] forall n string, d ociregistry.Digest, t string ::
+//@     hasBlob(r, n, d) == old(hasBlob(r, n, d)) && hasTag(r, n, t) == old(hasTag(r, n, t)) &&
+//@     (hasTag(r, n, t) ==> r.repos[n].tags[t] == old(r.repos[n].tags[t]))
+//@   ensures[tagged-content-protected] old(r.cfg.ImmutableTags) && result == nil ==>
+//@     calls == [refersTo(old(r.repos[repoName]), repoTagIter(old(r.repos[repoName])), digest)] && !calls[0].result.0 && calls[0].result.1 == nil
+
+//@ func (*Registry).DeleteTag
+//@   atomic
+//@   ensures[deleted] result == nil ==> old(hasTag(r, repoName, tagName)) && !hasTag(r, repoName, tagName)
+//@   ensures[unknown-name] !old(in(r.repos, repoName)) ==> result == ociregistry.ErrNameUnknown
+//@   ensures[unknown-tag] old(in(r.repos, repoName)) && !old(hasTag(r, repoName, tagName)) ==> errIs(result, ociregistry.ErrManifestUnknown)
+//@   ensures[immutable-tags-stay] old(r.cfg.ImmutableTags) ==> result != nil
+//@   ensures[touches-only-that-tag] forall n string, t string :: !(n == repoName && t == tagName) ==>
+//@     hasTag(r, n, t) == old(hasTag(r, n, t)) && (hasTag(r, n, t) ==> r.repos[n].tags[t] == old(r.repos[n].tags[t]))
+//@   ensures[failed-deletes-nothing] result != nil ==> forall n string, t string :: hasTag(r, n, t) == old(hasTag(r, n, t))
+//@   ensures[content-untouched] forall n string, d ociregistry.Digest ::
+//@     hasBlob(r, n, d) == old(hasBlob(r, n, d)) && hasManifest(r, n, d) == old(hasManifest(r, n, d))
+
+//@ func (*Registry).Repositories
+//@   atomic
+//@   modifies nothing
+//@   ensures[sorted-names-after-the-start] calls == [mapKeysIter(r.repos, strings.Compare, startAfter)] && result == calls[0].result
+//@ func (*Registry).Tags
+//@   atomic
+//@   modifies nothing
+//@   ensures[unknown-name] !in(r.repos, repoName) ==> result == ociregistry.ErrorSeq(ociregistry.ErrNameUnknown)
+//@   ensures[sorted-tags-after-the-start] in(r.repos, repoName) ==>
+//@     calls == [mapKeysIter(r.repos[repoName].tags, strings.Compare, startAfter)] && result == calls[0].result
+//@ func (*Registry).Referrers
+//@   atomic
+//@   modifies nothing
+//@   ensures[unknown-name] !in(r.repos, repoName) ==> result == ociregistry.ErrorSeq(ociregistry.ErrNameUnknown)
+//@   loop 0 invariant forall i int :: 0 <= i && i < len(referrers) ==> exists d ociregistry.Digest ::
+//@     in(repo.manifests, d) && visited(repo.manifests, d) && repo.manifests[d].subject == digest &&
+//@     referrers[i] == repo.manifests[d].descriptor()
+//@   loop 0 invariant forall d ociregistry.Digest :: visited(repo.manifests, d) && repo.manifests[d].subject == digest ==>
+//@     exists i int :: 0 <= i && i < len(referrers) && referrers[i] == repo.manifests[d].descriptor()
+//@   ensures[only-manifests-naming-the-subject] in(r.repos, repoName) ==> forall i int :: 0 <= i && i < len(referrers) ==>
+//@     exists d ociregistry.Digest :: hasManifest(r, repoName, d) && r.repos[repoName].manifests[d].subject == digest &&
+//@       referrers[i] == r.repos[repoName].manifests[d].descriptor()
+//@   ensures[every-manifest-naming-the-subject] in(r.repos, repoName) ==> forall d ociregistry.Digest ::
+//@     hasManifest(r, repoName, d) && r.repos[repoName].manifests[d].subject == digest ==>
+//@     exists i int :: 0 <= i && i < len(referrers) && referrers[i] == r.repos[repoName].manifests[d].descriptor()
+//@   ensures[in-digest-order] in(r.repos, repoName) ==> forall i, j int :: 0 <= i && i < j && j < len(referrers) ==> referrers[i].Digest <= referrers[j].Digest
+//@   ensures[yields-that-slice] in(r.repos, repoName) ==> result == ociregistry.SliceSeq(referrers)
+
+//@ func (*Registry).checkManifest
+//@   holds r.mu
+//@   modifies nothing
+//@   log
+//@   ensures[unknown-name] !in(r.repos, repoName) ==> result.1 != nil
+//@ func (*Registry).checkManifest$1
+//@   holds Registry.mu
+//@   requires repoWF(repo)
+//@   ensures[missing-blob-refused] info.kind == kindBlob && !in(repo.blobs, info.desc.Digest) ==> !result && retErr != nil
+//@   ensures[missing-manifest-refused] info.kind == kindManifest && !in(repo.manifests, info.desc.Digest) ==> !result && retErr != nil
+//@   ensures[malformed-descriptor-refused] CheckDescriptor(info.desc, nil) != nil ==> !result && retErr != nil
+//@   ensures[error-is-never-cleared] old(retErr) != nil ==> retErr != nil
+//@   ensures[stops-only-with-an-error] !result ==> retErr != nil
+//@   ensures[subject-recorded] result && info.kind == kindSubjectManifest ==> subject == info.desc.Digest
+//@ func refersTo
+//@   holds Registry.mu
+//@   modifies nothing
+//@   log
+//@   requires repoWF(repo) && iter != nil
+
+// (trusted: the table manifestIterators holds functions that return a
+// non-nil iterator or an error)
+//@ func manifestReferences
+//@   trusted
+//@   modifies nothing
+//@   ensures[iterator-or-error] result.1 == nil ==> result.0 != nil
+//@ fn-type-pure descIter
+//@ func repoTagIter
+//@   pure
+//@   requires repoWF(r)
+//@   ensures result != nil
+//@ func repoTagIter$1
+//@   holds Registry.mu
+//@   requires repoWF(r)
+// Listings: the keys strictly after the start point, each exactly once, in
+// the order of the comparison. ks is the slice the returned iterator yields
+// (SliceSeq's closure, verified in package ociregistry, yields exactly its
+// argument in order). visited(m, k) is the ghost state of the range over m.
+//@ func mapKeysIter
+//@   modifies nothing
+//@   log
+//@   pure-param cmp
+//@   requires cmp != nil
+//@   loop 0 invariant forall i int :: 0 <= i && i < len(ks) ==> in(m, ks[i]) && visited(m, ks[i]) && cmp(startAfter, ks[i]) < 0
+//@   loop 0 invariant forall k K :: visited(m, k) && cmp(startAfter, k) < 0 ==> exists i int :: 0 <= i && i < len(ks) && ks[i] == k
+//@   loop 0 invariant forall i, j int :: 0 <= i && i < j && j < len(ks) ==> ks[i] != ks[j]
+//@   ensures result != nil
+//@   ensures[yields-that-slice] result == ociregistry.SliceSeq(ks)
+//@   ensures[only-keys-after-the-start] forall i int :: 0 <= i && i < len(ks) ==> in(m, ks[i]) && cmp(startAfter, ks[i]) < 0
+//@   ensures[every-key-after-the-start] forall k K :: in(m, k) && cmp(startAfter, k) < 0 ==> exists i int :: 0 <= i && i < len(ks) && ks[i] == k
+//@   ensures[in-order] forall i, j int :: 0 <= i && i < j && j < len(ks) ==> cmp(ks[i], ks[j]) <= 0
+//@   ensures[each-once] forall i, j int :: 0 <= i && i < j && j < len(ks) ==> ks[i] != ks[j]
+//@ func NewBuffer
+//@   nocall
+//@   requires commit != nil
+//@   ensures result != nil && result.commit != nil && result.uuid != "" && (uuid != "" ==> result.uuid == uuid)
+//@ func descIterForType$1
+//@   requires newIter != nil
+//@ func descIterForType
+//@   requires newIter != nil
+//@   ensures result != nil
+// (trusted: 32 random bytes printed in hexadecimal)
+//@ func newUUID
+//@   trusted
+//@   modifies nothing
+//@   ensures result != ""
+// The commit callback runs after checkCommit released the buffer lock, so
+// nothing about the buffer's guarded fields is assumed here (a concurrent
+// Commit may have recorded an error in between): whatever it stores must be
+// justified by what GetBlob returns under the lock.
+//@ func (*Registry).PushBlobChunkedResume$1
+//@   requires b != nil && b.commit != nil && r != nil && repoWF(repo)
+//@   ensures[stores-verified-bytes] result == nil ==> in(repo.blobs, desc.Digest) && repo.blobs[desc.Digest] != nil &&
+//@     digest.FromBytes(repo.blobs[desc.Digest].data) == desc.Digest
+//@   ensures[stores-nothing-on-error] result != nil ==> forall d ociregistry.Digest ::
+//@     in(repo.blobs, d) == old(in(repo.blobs, d)) && repo.blobs[d] == old(repo.blobs[d])
+//@   ensures[touches-only-that-digest] forall d ociregistry.Digest :: d != desc.Digest ==>
+//@     in(repo.blobs, d) == old(in(repo.blobs, d)) && repo.blobs[d] == old(repo.blobs[d])
+
+// ---------------------------------------------------------------------------
+// Upload buffers (C04, C01, C08).
+//
+// BufInv: once committed without error, the first desc.Size bytes of the
+// buffer hash to desc.Digest. Write only appends, so the invariant holds
+// whenever the buffer lock is free - also between Commit's two steps.
+//@ invariant (*Buffer) self.committed && self.commitErr == nil ==>
+//@     0 <= self.desc.Size && self.desc.Size <= len(self.buf) &&
+//@     digest.FromBytes(self.buf[:self.desc.Size]) == self.desc.Digest
+
+//@ func (*Buffer).GetBlob
+//@   modifies nothing
+//@   ensures[committed-bytes-match-their-descriptor] result.2 == nil ==>
+//@     digest.FromBytes(result.1) == result.0.Digest && result.0.Size == len(result.1) && result.0 == b.desc
+//@   ensures[no-bytes-with-an-error] result.2 != nil ==> result.1 == nil && result.0 == zero(ociregistry.Descriptor)
+//@   ensures[succeeds-iff-committed-cleanly] (result.2 == nil) == (b.committed && b.commitErr == nil)
+
+//@ func (*Buffer).Write
+//@   ensures[offset-mismatch-refused] old(b.checkStartOffset) != 0 - 1 && old(len(b.buf)) != old(b.checkStartOffset) ==>
+//@     result.0 == 0 && errIs(result.1, ociregistry.ErrRangeInvalid) && string(b.buf) == old(string(b.buf))
+//@   ensures[appends-exactly-the-data] !(old(b.checkStartOffset) != 0 - 1 && old(len(b.buf)) != old(b.checkStartOffset)) ==>
+//@     result.0 == len(data) && result.1 == nil && string(b.buf) == old(string(b.buf)) + string(data) && b.checkStartOffset == 0 - 1
+
+//@ func (*Buffer).checkCommit
+//@   ensures[verified-before-committed] result == nil ==>
+//@     b.committed && b.commitErr == nil && b.desc.Digest == dig && b.desc.Size == len(b.buf) && digest.FromBytes(b.buf) == dig
+//@   ensures[wrong-digest-refused] old(b.commitErr) == nil && digest.FromBytes(old(b.buf)) != dig ==>
+//@     errIs(result, ociregistry.ErrDigestInvalid) && b.commitErr != nil
+
+// The commit callback is only invoked on a buffer whose invariant holds.
+//@ fn-sink (*Buffer).commit(b) requires b != nil && b.commit != nil && b.committed && b.commitErr == nil
+
+//@ func (*Buffer).Size
+//@   modifies nothing
+//@ func (*Buffer).ID
+//@   modifies nothing
+//@   ensures result == b.uuid
+//@ func (*Buffer).ChunkSize
+//@   modifies nothing
+//@ func (*Buffer).Close
+//@   modifies nothing
+//@ func (*Buffer).Commit
+//@   ensures[wrong-digest-stores-nothing] old(b.commitErr) == nil && digest.FromBytes(old(b.buf)) != dig ==>
+//@     result.1 != nil && calls == []
+//@   ensures[committed-descriptor-matches-the-bytes] result.1 == nil && b.committed && b.commitErr == nil ==> 0 <= result.0.Size && result.0.Size <= len(b.buf) &&
+//@     digest.FromBytes(b.buf[:result.0.Size]) == result.0.Digest
